@@ -2,7 +2,7 @@ SPECIFICATION CSpec
 CONSTANTS
   Series = {"s1", "s2"}
   TOff = 0
-  TimesRaw = {1, 3, 9}
+  TimesRaw = {1, 9}
   Vals = {1}
   Types = {"f"}
   Apps = {"a1"}
@@ -23,9 +23,12 @@ CONSTANTS
   EmitMode = "none"
   BigSeries = {"s2"}
   ScriptName = "free"
-  MaxCrashes = 1
-  CAllowKF = {}
-  CEmit = "none"
+  MaxCrashes = 2
+  CAllowKF = {"KF-C03-1", "KF-C03-2", "KF-C03-3"}
+  CrashOdds = 1
+  RecOdds = 1
+  CEmit = "class"
 VIEW CView
 INVARIANTS Survive FilesAgree BlocksAgree OpenCleans WalShape InoSorted
+ACTION_CONSTRAINT CEmitAC
 CHECK_DEADLOCK FALSE
